@@ -292,6 +292,10 @@ func main() {
 				x := []byte("a.a")
 				x[2] = byte(b)
 				add("bytesweep", desc{string(x), string(x), "a", string(x)})
+				// and inside a single token (name parts, tag values, event and method names have no dots)
+				y := []byte("aa")
+				y[b%2] = byte(b)
+				add("bytesweep", desc{string(y), string(y), "a", string(y)})
 			}
 		}
 	}
